@@ -545,12 +545,20 @@ class World:
                 self.net.fired("tcp.blackhole")
 
     def op_net_stall(self, step) -> None:
+        if not step.get("on", True):
+            # the window opens again: every stalled transport flushes (also one the client already closed)
+            for link in self.net.links:
+                if link.transport is not None and link.transport._stalled:
+                    link.transport._set_stall(False)
+            return
         link = self.net.current_link()
         if link is not None and link.transport is not None:
-            if step.get("on", True):
-                self.trace.add("fault.fired", k="tcp.stall", link=link.id)
-                self.net.fired("tcp.stall")
-            link.transport._set_stall(step.get("on", True))
+            self.trace.add("fault.fired", k="tcp.stall", link=link.id)
+            self.net.fired("tcp.stall")
+            link.transport._set_stall(True)
+
+    def op_net_fin_next_accept(self, step) -> None:
+        self.net.fin_new_links.append(step.get("delay", 0.0))
 
     def op_net_stall_next(self, step) -> None:
         self.net.stall_new_links.append(step["duration"])
@@ -615,6 +623,7 @@ class World:
         self.net.write_faults.clear()
         self.net.fates.clear()
         self.net.stall_new_links.clear()
+        self.net.fin_new_links.clear()
 
     def op_noop(self, step) -> None:
         pass
